@@ -631,6 +631,18 @@ def m3(ctx, al, count):
             else:
                 n = rng.randint(1, 6)
                 xs = rng.sample([F(k, 2) for k in range(-6, 9)] if rng.random() < 0.4 else [F(k) for k in range(-4, 6)], n)
+                if n >= 4 and rng.random() < 0.5:
+                    # abscissae that LOOK equally spaced from their ends (first step * (n-1) = span) but are not,
+                    # sorted or not: the interpolator passes through its points whatever their spacing
+                    x0, h = F(rng.randint(-3, 2)), F(rng.choice([1, 1, 2]), rng.choice([1, 2]))
+                    inner = rng.sample([x0 + h * F(k, 2) for k in range(3, 2 * (n - 1)) if k % 2 or rng.random() < .3],
+                                       n - 3) if 2 * (n - 1) - 3 >= n - 3 else []
+                    if len(inner) == n - 3:
+                        xs = [x0, x0 + h] + sorted(inner) + [x0 + h * (n - 1)]
+                        if len(set(xs)) != n:
+                            xs = rng.sample([F(k) for k in range(-4, 6)], n)
+                        elif rng.random() < 0.3:
+                            xs = xs[:2] + xs[2:][::-1]
                 pts = [(a, F(rng.randint(-4, 4), rng.choice([1, 1, 2, 3]))) for a in xs]
                 if not fits_lagrange(pts):
                     continue
